@@ -207,7 +207,9 @@ CLAIMS = {
              "abandoned evaluation), over joins (1-4 variables, shuffled declaration order), disjunctions over equal/different "
              "variable sets, negation, sub-queries, for_all, flatten, rule trees, with the number of cache hits taken reported.",
         note=BASE_NOTE + "A difference is attributed to C05-F1/F2 only when the L2 machine, which transliterates the cache code, "
-             "reproduces the implementation's rows; to F3/F4/F5 (no model reproduces them) only inside their scope and when caching "
+             "reproduces the implementation's rows (for C05-F1 also: a cache observed non-prefix-uniform at a lookup, in a "
+             "query of several variables with a literal inside a non-first operand of an and_/or_ - where the machine's cache "
+             "keys are known not to be the implementation's); to F3/F4/F5 (no model reproduces them) only inside their scope and when caching "
              "off gives the specified rows: a mutation that changes behaviour inside those three scopes in a way that is still "
              "wrong may be masked.",
         tech="Lean 4 proof (cache index; evaluator with caches and duplicate tracking for every single-variable and/or tree, "
